@@ -35,6 +35,8 @@ type analysis struct {
 	problems []string
 	catchup  string // "none" | "complete" | "failed"
 	chunks   int
+	fin2     uint64 // the finalised height read by the catch-up's own setL1Head
+	dbFault  bool
 }
 
 func headEq(a, b *HeadJ) bool {
@@ -59,35 +61,6 @@ func linearise(c *Case, o *Observed, guard bool) *analysis {
 	}
 	for _, l := range c.Hist {
 		a.steps = append(a.steps, modelStep{line: l.line("hist")})
-	}
-	// the chain-id gate and whether the catch-up scan runs at all
-	{
-		script := strings.Repeat("e", c.ChainIDFails)
-		if c.ChainIDMismatch {
-			script += "m"
-		} else {
-			script += "o"
-		}
-		b := func(x bool) string {
-			if x {
-				return "1"
-			}
-			return "0"
-		}
-		gate, cu := "fatal", "no"
-		for _, m := range o.Marks {
-			switch m.Kind {
-			case "latest", "latestfail", "watch", "watchfail":
-				gate = "proceed"
-			case "filter", "filterfail":
-				cu = "yes"
-			}
-		}
-		if o.Stalled == "" {
-			a.steps = append(a.steps, modelStep{
-				line:   fmt.Sprintf("startup %s %s %s %s", b(c.Mode == "oneshot"), script, b(!c.LatestFail), b(!c.Fin1Fail)),
-				expect: fmt.Sprintf("gate=%s catchup=%s", gate, cu), what: "start-up gate"})
-		}
 	}
 	afterHead := func(i int) *HeadJ {
 		if i+1 < len(o.Marks) {
@@ -123,9 +96,16 @@ func linearise(c *Case, o *Observed, guard bool) *analysis {
 		})
 		a.catchup = res
 		a.chunks = len(queries)
+		a.fin2 = fin2
 		catchupEmitted = true
 	}
 
+	lastTick := -1
+	for i, m := range o.Marks {
+		if m.Kind == "tick" {
+			lastTick = i
+		}
+	}
 	for i, m := range o.Marks {
 		if m.PreWatch && m.Kind != "watch" && m.Kind != "watchfail" {
 			switch m.Kind {
@@ -180,6 +160,15 @@ func linearise(c *Case, o *Observed, guard bool) *analysis {
 		}
 		switch m.Kind {
 		case "tick":
+			if o.DBFaultFired && i == lastTick {
+				// the database failed inside this setL1Head: Run has returned the error
+				a.dbFault = true
+				a.steps = append(a.steps, modelStep{line: fmt.Sprintf("tickfault %x %s", m.Fin, c.DBFault),
+					expect: fmt.Sprintf("head=%s feed=%s fatal=1", afterHead(i).String(), o.DBFaultHead.String()),
+					what:   "poll with failing database"})
+				prevLiveKind = m.Kind
+				continue
+			}
 			n0, n1 := m.NotesBefore, afterNotes(i)
 			var note *HeadJ
 			if n1 > n0 && n1 <= len(o.Notes) {
@@ -224,5 +213,35 @@ func linearise(c *Case, o *Observed, guard bool) *analysis {
 		emitted++
 	}
 	a.steps = append(a.steps, modelStep{line: "head", expect: "head=" + o.FinalHead.String(), what: "final head"})
+	// the whole life again, this time through the model's own startUp / runLife
+	if o.Stalled == "" && !a.dbFault {
+		script := strings.Repeat("e", c.ChainIDFails)
+		if c.ChainIDMismatch {
+			script += "m"
+		} else {
+			script += "o"
+		}
+		gate := "fatal"
+		for _, m := range o.Marks {
+			switch m.Kind {
+			case "latest", "latestfail", "watch", "watchfail":
+				gate = "proceed"
+			}
+		}
+		opt := func(fail bool, v uint64) string {
+			if fail {
+				return "-"
+			}
+			return fmt.Sprintf("%x", v)
+		}
+		os := "0"
+		if c.Mode == "oneshot" {
+			os = "1"
+		}
+		a.steps = append(a.steps, modelStep{
+			line: fmt.Sprintf("life %s %s %s %s %x %s %x", os, script, opt(c.LatestFail, c.Latest), opt(c.Fin1Fail, c.Fin1),
+				c.Chunk, failAt, a.fin2),
+			expect: fmt.Sprintf("gate=%s head=%s", gate, o.FinalHead.String()), what: "whole life (startUp/runLife)"})
+	}
 	return a
 }
